@@ -2,7 +2,9 @@
 
 Exhaustive: 256 octets x {individual, group, broadcast} against a reference table
 written from KNX 03_03_04 Transport Layer §2 (TPDU coding), and every constructible
-PDU (sequence numbers 0..15) through encode -> decode.
+PDU (sequence numbers 0..15) through encode -> decode, both at the TPCI codec and
+through the frame encoder / parser (CEMILData.to_knx / from_knx), where the TPCI octet
+is merged with the first APCI octet.
 """
 
 from __future__ import annotations
@@ -13,9 +15,9 @@ from xknx.telegram import tpci as T
 PROPERTY = "C03"
 LEVEL = "exploration"
 RULE = (
-    "exhaustive enumeration of 256 TPCI octets x 3 destination kinds against an "
+    "exhaustive enumeration of 256 TPCI octets x 3 destination kinds (through TPCI.resolve and inside an L_Data frame through CEMILData.from_knx) against an "
     "independent reference table, plus every constructible PDU (seq 0..15) x matching "
-    "destination kinds; non-trivial = every (octet,kind) pair other than the plain "
+    "destination kinds, encoded and decoded by the TPCI codec and by the cEMI L_Data frame encoder/parser; non-trivial = every (octet,kind) pair other than the plain "
     "T_Data_Group/Broadcast/Individual octets 0..3 and every built PDU; distinct by construction"
 )
 ASSUMPTIONS = [
@@ -124,29 +126,99 @@ def check_built(ctx, pdu, kind: str) -> None:
                 ctx.fail(f"C03:built-roundtrip-apcibits:{type(pdu).__name__}", inp, f"{enc | low:#04x} -> {back2!r}")
 
 
+def _cemi_case(pdu, kind: str):
+    """(CEMILData carrying `pdu` to a destination of `kind`, reference TPCI bits on the wire)."""
+    from xknx.cemi import CEMIFlags, CEMILData
+    from xknx.telegram import GroupAddress, IndividualAddress
+    from xknx.telegram.apci import GroupValueRead, MemoryRead
+
+    dst = {"individual": IndividualAddress("1.2.3"), "group": GroupAddress("1/2/3"), "broadcast": GroupAddress(0)}[kind]
+    payload = None if pdu.control else (MemoryRead(address=0x1234, count=3) if kind == "individual" else GroupValueRead())
+    return CEMILData(flags=CEMIFlags(), src_addr=IndividualAddress("1.1.1"), dst_addr=dst, tpci=pdu, payload=payload)
+
+
+def check_built_cemi(ctx, pdu, kind: str) -> None:
+    """The same build -> encode -> decode clause through the frame encoder (CEMILData.to_knx / from_knx)."""
+    from xknx.cemi import CEMILData
+
+    inp = {"pdu": repr(pdu), "kind": kind, "via": "cemi"}
+    name = type(pdu).__name__
+    try:
+        frame = _cemi_case(pdu, kind)
+        raw = frame.to_knx()
+        back = CEMILData.from_knx(raw)
+    except Exception as e:  # noqa: BLE001
+        ctx.fail(f"C03:cemi-built-roundtrip-exc:{name}:{type(e).__name__}", inp, repr(e))
+        return
+    wire = raw[7]  # ctrl1 ctrl2 src(2) dst(2) len | TPCI/APCI octet
+    exp = ref_decode(wire, kind)
+    if exp is None or exp[0] != name or (name in ("TDataConnected", "TAck", "TNak") and exp[1] != pdu.sequence_number):
+        ctx.fail(f"C03:cemi-wire-tpci:{name}:{kind}", inp, f"{pdu!r} goes on the wire as TPCI octet {wire:#04x} (reference reads it as {exp}); frame {raw.hex()}")
+        return
+    if type(back.tpci) is not type(pdu) or back.tpci != pdu or back.tpci.sequence_number != pdu.sequence_number:
+        ctx.fail(f"C03:cemi-built-roundtrip-neq:{name}:{kind}", inp, f"{pdu!r} -> {raw.hex()} -> {back.tpci!r}")
+
+
+def check_octet_cemi(ctx, octet: int, kind: str) -> None:
+    """The decode clause through the frame parser: an L_Data frame whose TPCI octet is `octet`."""
+    from xknx.cemi import CEMILData
+    from xknx.exceptions import CouldNotParseCEMI, UnsupportedCEMIMessage
+
+    inp = {"octet": octet, "kind": kind, "via": "cemi"}
+    exp = ref_decode(octet, kind)
+    dst = {"individual": b"\x12\x03", "group": b"\x0a\x03", "broadcast": b"\x00\x00"}[kind]
+    ctrl2 = 0x60 if kind == "individual" else 0xE0
+    if octet & 0x80:  # control TPDU: no APDU
+        raw = bytes([0xBC, ctrl2, 0x11, 0x01]) + dst + bytes([0x00, octet])
+    else:  # data TPDU: the low two bits belong to the APCI (A_GroupValue_Read / A_Memory_Read 3 @ 0x1234)
+        apdu = bytes([octet & 0xFC | 0x02, 0x03, 0x12, 0x34]) if kind == "individual" else bytes([octet & 0xFC, 0x00])
+        raw = bytes([0xBC, ctrl2, 0x11, 0x01]) + dst + bytes([len(apdu) - 1]) + apdu
+        exp = ref_decode(octet & 0xFC, kind)
+    try:
+        tp = CEMILData.from_knx(raw).tpci
+    except (CouldNotParseCEMI, UnsupportedCEMIMessage, ConversionError):
+        tp = None
+    except Exception as e:  # noqa: BLE001
+        ctx.fail(f"C03:cemi-decode-exc:{type(e).__name__}", inp, f"{raw.hex()}: {e!r}")
+        return
+    if exp is None:
+        if tp is not None:
+            ctx.fail(f"C03:cemi-undefined-accepted:{type(tp).__name__}:{kind}", inp, f"frame {raw.hex()} with undefined TPCI {octet:#04x} for {kind} destination parsed as {tp!r}")
+        return
+    name, seq, mask = exp
+    if tp is None:
+        ctx.fail(f"C03:cemi-defined-rejected:{name}:{kind}", inp, f"frame {raw.hex()} with defined TPCI {octet:#04x} rejected")
+    elif type(tp).__name__ != name or (name in ("TDataConnected", "TAck", "TNak") and tp.sequence_number != seq):
+        ctx.fail(f"C03:cemi-wrong-pdu:{name}->{type(tp).__name__}:{kind}", inp, f"frame {raw.hex()}: TPCI {octet:#04x} parsed as {tp!r}, expected {name} seq {seq}")
+    elif (tp.to_knx() & mask) != (octet & mask):
+        ctx.fail(f"C03:cemi-reencode:{name}:{kind}", inp, f"{octet:#04x} -> {tp!r} -> {tp.to_knx():#04x}")
+
+
 def run(ctx) -> None:
     nontrivial = 0
     for kind in KINDS:
         for octet in range(256):
             check_octet(ctx, octet, kind)
+            check_octet_cemi(ctx, octet, kind)
             if octet > 3:
-                nontrivial += 1
+                nontrivial += 2
             if octet in (0x00, 0x04, 0x43, 0x80, 0x82, 0xC2, 0xFF):
                 ctx.sample({"octet": f"{octet:#04x}", "kind": kind, "ref": ref_decode(octet, kind)})
-    ctx.bulk(256 * 3, nontrivial, "octet-x-kind")
+    ctx.bulk(256 * 3 * 2, nontrivial, "octet-x-kind")
     nb = 0
     for pdu, kinds in built_pdus():
         for kind in kinds:
             check_built(ctx, pdu, kind)
-            nb += 1
+            check_built_cemi(ctx, pdu, kind)
+            nb += 2
     ctx.bulk(nb, nb, "built-pdu")
     ctx.exhaustive = True
 
 
 def replay(ctx, case) -> None:
     if "octet" in case:
-        check_octet(ctx, int(case["octet"]), case["kind"])
+        (check_octet_cemi if case.get("via") == "cemi" else check_octet)(ctx, int(case["octet"]), case["kind"])
     elif "pdu" in case:
         for pdu, kinds in built_pdus():
             if repr(pdu) == case["pdu"]:
-                check_built(ctx, pdu, case["kind"])
+                (check_built_cemi if case.get("via") == "cemi" else check_built)(ctx, pdu, case["kind"])
